@@ -165,7 +165,7 @@ def time_grid(ctx, case):
     ctx.evaluations += max(n - 1, 0)
 
 
-DEADLINES = sorted({(1 << b) + d for b in (7, 8, 15, 16, 23, 24, 31, 32, 39, 40, 47, 48, 55, 56, 62, 63, 64) for d in (-1, 0, 1)})
+DEADLINES = sorted({(1 << b) + d for b in (7, 8, 15, 16, 23, 24, 31, 32, 39, 40, 47, 48, 55, 56, 62, 63, 64) for d in (-1, 0, 1)} | {0, 1, 2})
 
 
 def deadline_widths(ctx, case):
@@ -193,13 +193,15 @@ def deadline_widths(ctx, case):
             w = build_witness(wk, sk, signer, pre[choice], sf, tw=tw)
             for dt in (-1, 0, 1):
                 t = D + dt
-                now = t
-                env.Clock.now = now
-                n += 1
-                want = model(kind, wk, signer, choice, t, now, D)
-                ctx.state(('width', kind, D, t0, timeout, path, signer, dt))
-                judge(ctx, w, lock, {**sf, 'timestamp': t}, want, {'lock': kind, 'block': 'deadline widths', 'path': path},
-                      f'{kind} x {wk} signer={signer} created at {t0} timeout={timeout} deadline={D} t=deadline{dt:+d}', now)
+                if t < 0:
+                    continue
+                for now in ((t,) if t else (t, 50)):      # timestamp 0 also with the verifier clock elsewhere
+                    env.Clock.now = now
+                    n += 1
+                    want = model(kind, wk, signer, choice, t, now, D)
+                    ctx.state(('width', kind, D, t0, timeout, path, signer, dt, now - t))
+                    judge(ctx, w, lock, {**sf, 'timestamp': t}, want, {'lock': kind, 'block': 'deadline widths', 'path': path},
+                          f'{kind} x {wk} signer={signer} created at {t0} timeout={timeout} deadline={D} t=deadline{dt:+d} now={now}', now)
     ctx.evaluations += max(n - 1, 0)
 
 
